@@ -1,7 +1,7 @@
 /-
   C01 — dictable behaves as a rectangular list of records under any operation history.
   Property theorems only (helper lemmas: PygProofs/Lemmas/TableLemmas, TableRect, TableRows, TableCons, TableNodup,
-  SliceLemmas, TableAbs, TableAbs2, TableAbsHeap, TableCall).
+  SliceLemmas, TableAbs, TableAbs2, TableAbsHeap, TableCall, TableMaskPlain, TableRagged, TableAlias, TableAliasSim).
 
   The model is the history machine `step : Heap → Op → Heap × Out` of PygModel/Table.lean; `run` folds it
   over an operation list.  Clauses of the property text and the theorems that state them:
@@ -22,9 +22,16 @@
     * update, tuple projection ........................................ `update_all`, `update_misfit`, `tup_rows`
     * column order of concatenations (python set) ..................... `RecsEquiv`, `concat_keys_perm`, `concat_any_order`, `equiv_observe`
     * stretch .......................................................... `concat_assoc`, `mask_col`
+    * review round 2: masks against a reading without `zipper` ........ `abs_getMask_plain`, `mask_plain_exact`, `mask_one_row_repeats`
+                      rows + header, ragged rows ....................... `new_rows_ragged`, `spec_new_rows_ragged`, `new_rows_ragged_header1`
+                      aliasing (handles as pointers, TableAlias.lean) .. `rframe_step`, `ralias_shared`, `rrect_step`, `rabs_step`, `rstep_noalias`, `rrun_noalias`
 -/
 import PygProofs.Lemmas.TableAbsHeap
 import PygProofs.Lemmas.TableCall
+import PygProofs.Lemmas.TableMaskPlain
+import PygProofs.Lemmas.TableRagged
+import PygProofs.Lemmas.TableAlias
+import PygProofs.Lemmas.TableAliasSim
 
 namespace Pyg.Props.C01
 open Pyg Table Abs
@@ -90,7 +97,7 @@ theorem rect_step (s : Heap) (op : Op) (hs : HeapRect s) : HeapRect (step s op).
   | mask dst h m =>
     simp only [step]
     split
-    · exact hs.bind dst fun t' ht' => getMask_rect ht'
+    · exact hs.bind dst fun t' ht' => getMask_rect (getMaskC_ok ht')
     · exact hs
   | take dst h is =>
     simp only [step]
@@ -241,7 +248,7 @@ theorem nodup_step (s : Heap) (op : Op) (hs : HeapNodup s) : HeapNodup (step s o
     simp only [step]
     split
     · rename_i t ht
-      exact hs.bind dst fun t' ht' => by rw [getMask_cols ht']; exact hs.get ht
+      exact hs.bind dst fun t' ht' => by rw [getMask_cols (getMaskC_ok ht')]; exact hs.get ht
     · exact hs
   | take dst h is =>
     simp only [step]
@@ -757,9 +764,9 @@ untouched, and the table keeps its rows -/
 theorem derived_column (t t' : Table) (n : Nat) (hr : t.Rect n) (hne : t ≠ []) (k : String) (f : Fn)
     (h : t.setFn (k, f) = .ok t') :
     ∃ vs, t'.col? k = some vs ∧ vs.length = n ∧
-      (∀ i (hi : i < vs.length), f.eval (t.cellAt i) = .ok vs[i]) ∧
+      (∀ i (hi : i < vs.length), f.eval (keyDflt k (t.cellAt i)) = .ok vs[i]) ∧
       (∀ k', k' ≠ k → t'.col? k' = t.col? k') ∧ t'.Rect n := by
-  unfold setFn at h
+  unfold setFn applyFnK at h
   split at h
   · cases h
   · rename_i vs hvs
@@ -1123,7 +1130,7 @@ theorem absStep_step (s : Heap) (op : Op) (hs : HeapRect s) :
     simp only [step, specStep, List.getElem?_map]
     cases ht : s[h]? with
     | none => rfl
-    | some t => exact absStep_bind' s dst (abs_getMask m)
+    | some t => exact absStep_bind' s dst (abs_getMaskC t m)
   | take dst h is =>
     simp only [step, specStep, List.getElem?_map]
     cases ht : s[h]? with
@@ -1596,5 +1603,505 @@ example : tbl.getTuple ["b", "z"] = .error .key := by rfl
 example : abs (tbl.relabel ⟨Option.none, [("a", "k"), ("b", "k")]⟩) = ⟨["k"], [[.str "x"], [.str "y"], [.flt 10]]⟩ ∧
     (abs tbl).relabel (Relabel.key ⟨Option.none, [("a", "k"), ("b", "k")]⟩) =
       ⟨["k"], [[.str "x"], [.str "y"], [.flt 10]]⟩ := by decide
+
+
+/-! ### review round 2 (1): masks against a reading that does not share `zipper` with the code
+
+`Recs.getMask` is written with `zipper2` and so inherits the broadcasting of `_zip.py` from the code;
+`abs_getMask` therefore says nothing independent about it.  `Recs.getMaskPlain` (PygModel/TableSpec.lean) is
+zip + filter, a single flag for all records, otherwise `ValueError`.
+
+Since the repair of `dictable.__getitem__` (defect C01-M1: a mask must have one flag per row or be a single
+flag) the history machine runs the CHECKED mask `Table.getMaskC` and the reference machine `specStep` runs
+`Recs.getMaskPlain` itself, so `abs_step` relates masks to the plain reading for every table and every mask
+(`mask_plain`).  `abs_getMask_plain`, `mask_plain_exact` and `mask_one_row_repeats` below are about the inner
+helper `Table.getMask` (the `zipper` comprehension alone, which `inc`/`exc` call with masks of the table's
+length): they say exactly where that helper leaves the plain reading, i.e. what the added length check is for. -/
+
+/-- **masking is the plain list-of-records mask - every table, every mask** (no side condition): keep the
+flagged records in order, all columns; a single flag keeps all or none; any other length is a `ValueError` -/
+theorem mask_plain (t : Table) (m : List Bool) : (t.getMaskC m).map abs = (abs t).getMaskPlain m :=
+  abs_getMaskC t m
+
+/-- a mask never invents rows: the records of `d[mask]` are a sub-sequence of the table's records, with the
+table's columns (this is what failed for a one-row table before the repair) -/
+theorem mask_sublist (t t' : Table) (m : List Bool) (h : t.getMaskC m = .ok t') :
+    (abs t').rows.Sublist (abs t).rows ∧ (abs t').cols = (abs t).cols := by
+  have hp := mask_plain t m
+  rw [h] at hp
+  simp only [Except.map] at hp
+  unfold Recs.getMaskPlain at hp
+  split at hp
+  · rename_i hl
+    rw [Except.ok.inj hp]
+    refine ⟨(List.filter_sublist.map _).trans ?_, rfl⟩
+    rw [List.map_fst_zip (by omega)]
+    exact List.Sublist.refl _
+  · split at hp
+    · rw [Except.ok.inj hp]
+      refine ⟨?_, rfl⟩
+      simp only
+      split
+      · exact List.Sublist.refl _
+      · exact List.nil_sublist _
+    · cases hp
+
+/-- the one-row table of `mask_one_row_repeats` on the machine: the longer mask is now rejected, the heap
+(all live tables) stays as it was -/
+example : step [[("a", [.int 1]), ("b", [.str "q"])]] (.mask 1 0 [true, true, false, true]) =
+    ([[("a", [.int 1]), ("b", [.str "q"])]], .err .value) := by rfl
+
+/-- **`d[mask]` is the plain zip+filter of the records** (all columns kept, error cases included) for every
+table and every mask EXCEPT a table with exactly one record under a mask that is not a single flag.
+No rectangularity hypothesis is needed; a table without columns has no records and is covered.
+The side condition is exact (`mask_plain_exact`).  What it excludes:
+  * one record, mask of length k >= 2: the code repeats the record (`mask_one_row_repeats`), the plain
+    reading is a `ValueError`;
+  * one record, EMPTY mask: the model's `getMask` yields the columns without records, the plain reading a
+    `ValueError`.  This case is not reachable through the protocol: python cannot tell `d[[]]` from an empty
+    int list (line 385-386) and the driver sends it as `take []` (`abs_getTake`), never as `Op.mask _ _ []`. -/
+theorem abs_getMask_plain (t : Table) (m : List Bool) (h : (abs t).rows.length ≠ 1 ∨ m.length = 1) :
+    (t.getMask m).map abs = (abs t).getMaskPlain m := by
+  rw [abs_getMask, Recs.getMask_eq_plain _ _ h]
+
+/-- the same in terms of the common column length `n` of a rectangular table -/
+theorem abs_getMask_plain_rect (t : Table) (n : Nat) (hr : t.Rect n) (m : List Bool)
+    (h : t = [] ∨ n ≠ 1 ∨ m.length = 1) : (t.getMask m).map abs = (abs t).getMaskPlain m := by
+  apply abs_getMask_plain
+  rcases h with rfl | h | h
+  · exact Or.inl (by decide)
+  · by_cases hne : t = []
+    · subst hne; exact Or.inl (by decide)
+    · rw [abs_rows_length, nrows_of_rect hr hne]; exact Or.inl h
+  · exact Or.inr h
+
+/-- the side condition of `abs_getMask_plain` cannot be weakened: exactly one record and a mask that is not
+a single flag ALWAYS separate the model (success) from the plain reading (`ValueError`) -/
+theorem mask_plain_exact (t : Table) (m : List Bool) (hn : (abs t).rows.length = 1) (hk : m.length ≠ 1) :
+    (∃ t', t.getMask m = .ok t') ∧ (abs t).getMaskPlain m = .error .value := by
+  obtain ⟨⟨r', hr'⟩, h2⟩ := Recs.getMask_ne_plain (abs t) m hn hk
+  refine ⟨?_, h2⟩
+  have := abs_getMask (t := t) m
+  rw [hr'] at this
+  cases hg : t.getMask m with
+  | ok t' => exact ⟨t', rfl⟩
+  | error e => rw [hg] at this; cases this
+
+/-- **deviation of the unchecked helper from the plain list-of-records reading** (defect C01-M1 of the
+unrepaired code, where `__getitem__` had no length check): a table with exactly ONE row under a mask of
+k >= 2 flags is NOT a `ValueError` — which is what the plain reading `Recs.getMaskPlain` gives (second
+conjunct) — but that row repeated once per `True` flag, all columns kept (also when no flag is `True`: then
+no record).  `zipper(list(self), mask)` broadcasts the length-1 list of rows (`_zip.py:38-72`); the
+unrepaired code returned 3 rows for `dictable(a=[1],b=['q'])[[True,True,False,True]]`.  The repaired
+`__getitem__` (model: `getMaskC`, theorem `mask_plain`) rejects the mask before the comprehension runs. -/
+theorem mask_one_row_repeats (t : Table) (hr : t.Rect 1) (hne : t ≠ []) (m : List Bool) (hk : 2 ≤ m.length) :
+    (abs t).rows = [t.row 0] ∧
+    (t.getMask m).map abs = .ok ⟨t.cols, List.replicate (m.count true) (t.row 0)⟩ ∧
+    (abs t).getMaskPlain m = .error .value := by
+  have hrows : (abs t).rows = [t.row 0] := by
+    simp [abs, rows, nrows_of_rect hr hne, List.range_succ]
+  have habs : abs t = ⟨t.cols, [t.row 0]⟩ := by
+    cases h : abs t with
+    | mk c r => rw [h] at hrows; simp only at hrows; subst hrows; have := abs_cols t; rw [h] at this; simp at this; rw [this]
+  obtain ⟨h1, h2⟩ := Recs.getMask_one_record t.cols (t.row 0) m hk
+  refine ⟨hrows, ?_, ?_⟩
+  · rw [abs_getMask, habs, h1]
+  · rw [habs, h2]
+
+example : Table.Rect [("a", [.int 1]), ("b", [.str "q"])] 1 := by decide
+/-- `dictable(a=[1],b=['q'])[[True,True,False,True]]`: three copies of the row -/
+example : Table.getMask [("a", [.int 1]), ("b", [.str "q"])] [true, true, false, true] =
+    .ok [("a", [.int 1, .int 1, .int 1]), ("b", [.str "q", .str "q", .str "q"])] := by rfl
+example : Recs.getMaskPlain ⟨["a", "b"], [[.int 1, .str "q"]]⟩ [true, true, false, true] = .error .value := by rfl
+/-- the hypotheses of `abs_getMask_plain` on a 3-row table: a full mask, a single flag, a misfit -/
+example : (abs tbl).rows.length ≠ 1 ∨ [true, false, true].length = 1 := Or.inl (by decide)
+example : (abs tbl).getMaskPlain [true, false, true] = .ok ⟨["a", "b"], [[.int 1, .str "x"], [.int 3, .flt 10]]⟩ ∧
+    (abs tbl).getMaskPlain [true] = .ok (abs tbl) ∧ (abs tbl).getMaskPlain [false] = .ok ⟨["a", "b"], []⟩ ∧
+    (abs tbl).getMaskPlain [true, false] = .error .value := ⟨rfl, rfl, rfl, rfl⟩
+/-- a one-row table under a single flag is covered by `abs_getMask_plain` (second disjunct) -/
+example : (Table.getMask [("a", [.int 1])] [true]).map abs = Recs.getMaskPlain ⟨["a"], [[.int 1]]⟩ [true] := by rfl
+
+/-! ### review round 2 (2): constructor from rows + header, ragged rows
+
+`new_rows` / `spec_new_rows` cover rows exactly as long as the header.  `_data_columns_as_dict` reads
+`dict(zipper(columns, zipper(*data)))`: the inner `zipper` transposes the rows (rows of length 1 are
+repeated to the common length, two lengths other than 1 are a `ValueError`), the outer one pairs the
+transposed columns with the header (a single transposed column is repeated under every name).  The header
+`cs` is a list of DISTINCT names (a repeated name in `columns=` is outside this closed form). -/
+
+/-- **rows + header, ragged rows** (`dictable([[1,2],[3],[4,5]], columns = ['a','b'])`), header of
+`c = len(cs)` distinct names:
+  * (success) if every row has length `c` or 1, the table has the header as columns and exactly the given
+    rows with each length-1 row repeated across the header (`bcast c`), one record per row
+    (for `c = 1` this says: all rows of length 1 are taken as they are);
+  * (failure, `c ≠ 1`) the constructor raises `ValueError` if and only if some row has a length that is
+    neither `c` nor 1.  Together: for `c ≠ 1` the result is determined for EVERY list of rows.
+For a header of ONE name the outer `zipper` repeats the name instead: see `new_rows_ragged_header1`. -/
+theorem new_rows_ragged (cs : List String) (rs : List (List Cell)) (hcs : cs.Nodup) (hk : cs ≠ []) :
+    ((∀ r ∈ rs, r.length = cs.length ∨ r.length = 1) →
+      construct (.rows rs) (some cs) [] = some (.ok (ofRows cs (rs.map (bcast cs.length)))) ∧
+      (ofRows cs (rs.map (bcast cs.length))).Rect rs.length ∧
+      (ofRows cs (rs.map (bcast cs.length))).cols = cs ∧
+      (ofRows cs (rs.map (bcast cs.length))).rows = rs.map (bcast cs.length)) ∧
+    (cs.length ≠ 1 →
+      (construct (.rows rs) (some cs) [] = some (.error .value) ↔
+        ∃ r ∈ rs, r.length ≠ cs.length ∧ r.length ≠ 1)) := by
+  have hgood : (∀ r ∈ rs, r.length = cs.length ∨ r.length = 1) →
+      construct (.rows rs) (some cs) [] = some (.ok (ofRows cs (rs.map (bcast cs.length)))) := by
+    intro hall
+    by_cases hne : rs = []
+    · subst hne
+      exact (new_rows cs [] hcs hk (by intro r hr; cases hr)).1
+    · exact construct_of_dataCols_ofRows cs _ hcs hk (dataCols_rows_ragged cs rs hcs hne hall)
+  constructor
+  · intro hall
+    have hl : ∀ r ∈ rs.map (bcast cs.length), r.length = cs.length := by
+      intro r hr
+      obtain ⟨r', hr', rfl⟩ := List.mem_map.1 hr
+      exact bcast_length (hall r' hr')
+    refine ⟨hgood hall, ?_, ofRows_cols cs _, ofRows_rows cs _ hk hl⟩
+    have := ofRows_rect cs (rs.map (bcast cs.length))
+    simpa using this
+  · intro hc
+    constructor
+    · intro herr
+      apply Classical.byContradiction
+      intro hno
+      have hall : ∀ r ∈ rs, r.length = cs.length ∨ r.length = 1 := by
+        intro r hr
+        apply Classical.byContradiction
+        intro h
+        exact hno ⟨r, hr, fun h1 => h (Or.inl h1), fun h1 => h (Or.inr h1)⟩
+      rw [hgood hall] at herr
+      cases herr
+    · intro hbad
+      exact construct_of_dataCols_error (dataCols_rows_bad cs rs hc hbad)
+
+/-- the same on the reference machine: the records are the rows, the length-1 ones repeated -/
+theorem spec_new_rows_ragged (cs : List String) (rs : List (List Cell)) (hcs : cs.Nodup) (hk : cs ≠ []) :
+    ((∀ r ∈ rs, r.length = cs.length ∨ r.length = 1) →
+      Recs.construct (.rows rs) (some cs) [] = some (.ok ⟨cs, rs.map (bcast cs.length)⟩)) ∧
+    (cs.length ≠ 1 →
+      (Recs.construct (.rows rs) (some cs) [] = some (.error .value) ↔
+        ∃ r ∈ rs, r.length ≠ cs.length ∧ r.length ≠ 1)) := by
+  obtain ⟨h1, h2⟩ := new_rows_ragged cs rs hcs hk
+  constructor
+  · intro hall
+    obtain ⟨e1, _, e3, e4⟩ := h1 hall
+    rw [← abs_construct, e1]
+    simp [Except.map, abs, e3, e4]
+  · intro hc
+    rw [← h2 hc, ← abs_construct]
+    cases construct (.rows rs) (some cs) [] with
+    | none => simp
+    | some r => cases r <;> simp [Except.map]
+
+/-- hypotheses of `new_rows_ragged` on a concrete ragged input: the middle row is repeated -/
+example : (["a", "b"] : List String).Nodup ∧ (["a", "b"] : List String) ≠ [] ∧
+    ∀ r ∈ ([[.int 1, .int 2], [.int 3], [.int 4, .int 5]] : List (List Cell)), r.length = 2 ∨ r.length = 1 := by
+  decide
+example : construct (.rows [[.int 1, .int 2], [.int 3], [.int 4, .int 5]]) (some ["a", "b"]) [] =
+    some (.ok [("a", [.int 1, .int 3, .int 4]), ("b", [.int 2, .int 3, .int 5])]) := by rfl
+example : Recs.construct (.rows [[.int 1, .int 2], [.int 3], [.int 4, .int 5]]) (some ["a", "b"]) [] =
+    some (.ok ⟨["a", "b"], [[.int 1, .int 2], [.int 3, .int 3], [.int 4, .int 5]]⟩) := by rfl
+/-- all rows of length 1 under a longer header -/
+example : construct (.rows [[.int 1], [.int 3]]) (some ["a", "b", "c"]) [] =
+    some (.ok [("a", [.int 1, .int 3]), ("b", [.int 1, .int 3]), ("c", [.int 1, .int 3])]) := by rfl
+/-- a row of a third length: `ValueError` (the outer zipper; the inner one for two misfits) -/
+example : construct (.rows [[.int 1, .int 2, .int 3], [.int 3]]) (some ["a", "b"]) [] = some (.error .value) ∧
+    construct (.rows [[.int 1, .int 2], [.int 3, .int 4, .int 5]]) (some ["a", "b"]) [] = some (.error .value) ∧
+    construct (.rows [[], [.int 3]]) (some ["a", "b"]) [] = some (.error .value) := ⟨rfl, rfl, rfl⟩
+
+/-- **rows under a header of ONE name** (`dictable([[1,2,3],[3],[7,8,9]], columns = ['a'])`), the case
+`new_rows_ragged` leaves open.  The outer `zipper` repeats the single name for every transposed column and
+`dict` keeps the last pair, so there is no error from the header:
+  * `ValueError` if and only if two rows have different lengths other than 1 (the inner `zipper`);
+  * otherwise, with `n` the common length (`lens`): ONE column holding, per row, its LAST cell (the only
+    cell of a length-1 row) — or no record at all when `n = 0` (only rows of length 0 / 1, at least one
+    empty, or no rows). This is NOT what a list-of-rows reading suggests (cells 1..n-1 of every row are
+    dropped without an error); it is what the modelled code computes (`dict(zipper(['a'], cols))`). -/
+theorem new_rows_ragged_header1 (k : String) (rs : List (List Cell)) :
+    (construct (.rows rs) (some [k]) [] = some (.error .value) ↔
+      ∃ a ∈ rs, ∃ b ∈ rs, a.length ≠ 1 ∧ b.length ≠ 1 ∧ a.length ≠ b.length) ∧
+    (∀ n, lens (rs.map (·.length)) = .ok n →
+      construct (.rows rs) (some [k]) [] =
+        some (.ok [(k, if n = 0 then [] else rs.map fun r => (bcast n r).getD (n - 1) .none)])) := by
+  have hok : ∀ n, lens (rs.map (·.length)) = .ok n →
+      construct (.rows rs) (some [k]) [] =
+        some (.ok [(k, if n = 0 then [] else rs.map fun r => (bcast n r).getD (n - 1) .none)]) := by
+    intro n hl
+    by_cases hne : rs = []
+    · subst hne
+      have : n = 0 := by simpa [lens] using hl.symm
+      subst this
+      exact (new_rows [k] [] (by simp) (by simp) (by intro r hr; cases hr)).1
+    · have hdc := dataCols_rows_header1 k rs hne n hl
+      by_cases h0 : n = 0
+      · subst h0
+        simp only [if_true] at hdc ⊢
+        simp only [construct, hdc]
+        rfl
+      · simp only [if_neg h0] at hdc ⊢
+        exact construct_of_dataCols_single k _ hdc
+  refine ⟨?_, hok⟩
+  constructor
+  · intro herr
+    cases hl : lens (rs.map (·.length)) with
+    | ok n => rw [hok n hl] at herr; cases herr
+    | error e =>
+      have := lens_error_value hl
+      subst this
+      obtain ⟨a, ha, b, hb, h1, h2, h3⟩ := (lens_error_iff _).1 hl
+      obtain ⟨a', ha', rfl⟩ := List.mem_map.1 ha
+      obtain ⟨b', hb', rfl⟩ := List.mem_map.1 hb
+      exact ⟨a', ha', b', hb', h1, h2, h3⟩
+  · rintro ⟨a, ha, b, hb, h1, h2, h3⟩
+    have hl : lens (rs.map (·.length)) = .error .value :=
+      (lens_error_iff _).2 ⟨_, List.mem_map.2 ⟨a, ha, rfl⟩, _, List.mem_map.2 ⟨b, hb, rfl⟩, h1, h2, h3⟩
+    obtain ⟨r0, rest, rfl⟩ := List.exists_cons_of_ne_nil (List.ne_nil_of_mem ha)
+    apply construct_of_dataCols_error
+    have hz : zipper Cell.none (r0 :: rest) = .error .value := by
+      unfold zipper
+      rw [hl]
+    simp only [dataCols, hz]
+
+example : lens (([[.int 1, .int 2, .int 3], [.int 3], [.int 7, .int 8, .int 9]] : List (List Cell)).map (·.length)) = .ok 3 := by
+  rfl
+/-- three-cell rows under a one-name header: the last cell of each row -/
+example : construct (.rows [[.int 1, .int 2, .int 3], [.int 3], [.int 7, .int 8, .int 9]]) (some ["a"]) [] =
+    some (.ok [("a", [.int 3, .int 3, .int 9])]) := by rfl
+example : construct (.rows [[.int 1, .int 2, .int 3], [.int 3, .int 4]]) (some ["a"]) [] = some (.error .value) := by rfl
+
+/-! ### review round 2 (3): aliasing — handles as pointers (PygModel/TableAlias.lean)
+
+`frame_step` is about a heap of VALUES: `d + None` and `dictable.concat([d])` only report `Out.alias`, the
+alias is never bound, so no history of `step` mutates a table through a second name.  `rstep` runs `step`
+on a store of cells behind a pointer table; `bindAlias dst h` binds a second handle to the same cell. -/
+
+/-- cells: the only operations that write an EXISTING cell are `setitem / delitem / update`, and they write
+the cell of their handle (`ROp.writesCell`); every other cell is as before.  Table-producing operations
+write a fresh cell (index `cells.length`), queries and `bindAlias` none. -/
+theorem rframe_cells (s : RefHeap) (rop : ROp) (c : Nat) (hc : c < s.cells.length)
+    (hw : rop.writesCell s ≠ some c) : (rstep s rop).1.cells[c]? = s.cells[c]? := by
+  cases rop with
+  | bindAlias dst h => simp only [rstep]; split <;> rfl
+  | op o =>
+    have hcells : (rstep s (.op o)).1.cells = (step s.cells (o.mapHandles s.cellOf s.cells.length)).1 := rfl
+    rw [hcells]
+    apply frame_step _ _ c hc
+    rw [Op.writes_mapHandles]
+    cases hd : o.dst? with
+    | some d => simp only [ne_eq, Option.some.injEq]; omega
+    | none =>
+      simp only [ROp.writesCell] at hw
+      cases hi : o.inplace? with
+      | none => simp
+      | some h =>
+        rw [hi] at hw
+        simp only at hw
+        simp only [Option.map_some, ne_eq, Option.some.injEq, RefHeap.cellOf]
+        cases hp : s.ptr[h]? with
+        | none => simp only [Option.getD_none]; omega
+        | some c' =>
+          rw [hp] at hw
+          simpa using hw
+
+/-- pointers: only the destination handle of the operation is (re)bound -/
+theorem rframe_ptr (s : RefHeap) (rop : ROp) (i : Nat) (hi : i < s.ptr.length) (hreb : rop.rebinds ≠ some i) :
+    (rstep s rop).1.ptr[i]? = s.ptr[i]? := by
+  cases rop with
+  | bindAlias dst h =>
+    simp only [ROp.rebinds, ne_eq, Option.some.injEq] at hreb
+    simp only [rstep]
+    split
+    · exact RefHeap.bindPtr_getElem?_ne _ _ _ _ hi hreb
+    · rfl
+  | op o =>
+    simp only [ROp.rebinds] at hreb
+    simp only [rstep, RefHeap.ptrAfter]
+    split
+    · rename_i d _ hd _
+      rw [hd] at hreb
+      exact RefHeap.bindPtr_getElem?_ne _ _ _ _ hi (by simpa using hreb)
+    · rfl
+
+/-- **frame for the reference heap**: after ANY operation, a handle that read table `t`, is not the
+(re)bound destination, and whose cell is not the cell assigned in place by `setitem / delitem / update`,
+still reads `t`.  (For the value heap this was `frame_step`; here two handles may share a cell and the
+hypothesis is about the CELL written, not the handle named in the operation.) -/
+theorem rframe_step (s : RefHeap) (rop : ROp) (i : Nat) (t : Table) (hg : s.get i = some t)
+    (hreb : rop.rebinds ≠ some i) (hw : rop.writesCell s ≠ s.ptr[i]?) :
+    (rstep s rop).1.get i = some t := by
+  obtain ⟨c, hp, hcell⟩ := RefHeap.get_eq_some hg
+  have hi : i < s.ptr.length := (List.getElem?_eq_some_iff.1 hp).1
+  have hc : c < s.cells.length := (List.getElem?_eq_some_iff.1 hcell).1
+  rw [hp] at hw
+  have h1 := rframe_ptr s rop i hi hreb
+  rw [hp] at h1
+  rw [RefHeap.get_of_ptr h1, rframe_cells s rop c hc hw, hcell]
+
+/-- operations that return a new table never alter what ANY other handle reads — aliases of the operands
+included: the result goes to a fresh cell -/
+theorem rframe_producing (s : RefHeap) (o : Op) (hin : o.inplace? = Option.none) (i : Nat) (t : Table)
+    (hg : s.get i = some t) (hd : o.dst? ≠ some i) : (rstep s (.op o)).1.get i = some t := by
+  apply rframe_step s (.op o) i t hg hd
+  obtain ⟨c, hp, _⟩ := RefHeap.get_eq_some hg
+  simp [ROp.writesCell, hin, hp]
+
+/-- **an alias shares its object**: after `dst = h + None` (`bindAlias dst h`; `dst` an existing handle or
+the next new one) both handles point to the same cell and read the same table, and an assignment
+`dst[k] = v` that succeeds on that table is seen through `h` as well (real code: `e = d + None;
+e['z'] = 5` changes `d`).  A rejected assignment changes neither. -/
+theorem ralias_shared (s : RefHeap) (dst h : Nat) (t : Table) (hg : s.get h = some t)
+    (hd : dst ≤ s.ptr.length) (k : String) (v : ColVal) :
+    let s1 := (rstep s (.bindAlias dst h)).1
+    let s2 := (rstep s1 (.op (.setitem dst k v))).1
+    s1.ptr[dst]? = s.ptr[h]? ∧ s1.ptr[h]? = s.ptr[h]? ∧ s1.get dst = some t ∧ s1.get h = some t ∧
+    (∀ t', t.setitem k v = .ok t' → s2.get dst = some t' ∧ s2.get h = some t') ∧
+    (∀ e, t.setitem k v = .error e → s2.get dst = some t ∧ s2.get h = some t) := by
+  obtain ⟨c, hp, hcell⟩ := RefHeap.get_eq_some hg
+  have hh : h < s.ptr.length := (List.getElem?_eq_some_iff.1 hp).1
+  have hc : c < s.cells.length := (List.getElem?_eq_some_iff.1 hcell).1
+  have hs1 : (rstep s (.bindAlias dst h)).1 = ⟨RefHeap.bindPtr s.ptr dst c, s.cells⟩ := by
+    simp only [rstep, hp]
+  have hpd : (RefHeap.bindPtr s.ptr dst c)[dst]? = some c := RefHeap.bindPtr_getElem?_self _ _ _ hd
+  have hph : (RefHeap.bindPtr s.ptr dst c)[h]? = some c := by
+    by_cases hdh : dst = h
+    · rw [← hdh]; exact hpd
+    · rw [RefHeap.bindPtr_getElem?_ne _ _ _ _ hh hdh, hp]
+  have hcellOf : RefHeap.cellOf ⟨RefHeap.bindPtr s.ptr dst c, s.cells⟩ dst = c := by
+    simp [RefHeap.cellOf, hpd]
+  intro s1 s2
+  have e1 : s1 = ⟨RefHeap.bindPtr s.ptr dst c, s.cells⟩ := hs1
+  have e2 : s2 = (rstep ⟨RefHeap.bindPtr s.ptr dst c, s.cells⟩ (.op (.setitem dst k v))).1 := by
+    show (rstep s1 _).1 = _
+    rw [e1]
+  refine ⟨by rw [e1, hp]; exact hpd, by rw [e1, hp]; exact hph, ?_, ?_, ?_, ?_⟩
+  · rw [e1, RefHeap.get_of_ptr hpd]; exact hcell
+  · rw [e1, RefHeap.get_of_ptr hph]; exact hcell
+  · intro t' ht'
+    have : s2 = ⟨RefHeap.bindPtr s.ptr dst c, s.cells.set c t'⟩ := by
+      rw [e2]
+      simp only [rstep, RefHeap.ptrAfter, Op.mapHandles, Op.dst?, Op.aliasOf, hcellOf, step, hcell, ht']
+    rw [this]
+    constructor
+    · rw [RefHeap.get_of_ptr hpd]; simp [hc]
+    · rw [RefHeap.get_of_ptr hph]; simp [hc]
+  · intro e he
+    have : s2 = ⟨RefHeap.bindPtr s.ptr dst c, s.cells⟩ := by
+      rw [e2]
+      simp only [rstep, RefHeap.ptrAfter, Op.mapHandles, Op.dst?, Op.aliasOf, hcellOf, step, hcell, he]
+    rw [this]
+    exact ⟨by rw [RefHeap.get_of_ptr hpd]; exact hcell, by rw [RefHeap.get_of_ptr hph]; exact hcell⟩
+
+/-- aliases stay aliases: two handles bound to one cell are still bound to one cell after any operation that
+rebinds neither -/
+theorem ralias_stays (s : RefHeap) (rop : ROp) (a b : Nat) (ha : a < s.ptr.length) (hb : b < s.ptr.length)
+    (hab : s.ptr[a]? = s.ptr[b]?) (hra : rop.rebinds ≠ some a) (hrb : rop.rebinds ≠ some b) :
+    (rstep s rop).1.ptr[a]? = (rstep s rop).1.ptr[b]? ∧ (rstep s rop).1.get a = (rstep s rop).1.get b := by
+  have h : (rstep s rop).1.ptr[a]? = (rstep s rop).1.ptr[b]? := by
+    rw [rframe_ptr s rop a ha hra, rframe_ptr s rop b hb hrb, hab]
+  exact ⟨h, by simp only [RefHeap.get, h]⟩
+
+/-- **all cells stay rectangular** (`rect_step` lifted to the reference heap) -/
+theorem rrect_step (s : RefHeap) (rop : ROp) (hs : HeapRect s.cells) : HeapRect (rstep s rop).1.cells := by
+  cases rop with
+  | bindAlias dst h => simp only [rstep]; split <;> exact hs
+  | op o => exact rect_step s.cells _ hs
+
+/-- every handle keeps pointing to an existing cell -/
+theorem rwf_step (s : RefHeap) (rop : ROp) (hs : s.WF) : (rstep s rop).1.WF := by
+  cases rop with
+  | bindAlias dst h =>
+    simp only [rstep]
+    split
+    · rename_i c hc
+      intro x hx
+      rcases RefHeap.mem_bindPtr hx with hx | rfl
+      · exact hs x hx
+      · exact hs x (List.mem_of_getElem? hc)
+    · exact hs
+  | op o =>
+    have hge := step_length_ge s.cells (o.mapHandles s.cellOf s.cells.length)
+    intro x hx
+    simp only [rstep, RefHeap.ptrAfter] at hx ⊢
+    split at hx
+    · rename_i _ _ d hd hunit
+      have hfresh := step_unit_fresh s.cells o d hd s.cellOf hunit
+      rcases RefHeap.mem_bindPtr hx with hx | rfl
+      · exact Nat.lt_of_lt_of_le (hs x hx) hge
+      · omega
+    · exact Nat.lt_of_lt_of_le (hs x hx) hge
+
+/-- after any history from the empty reference heap: all cells rectangular, all pointers valid -/
+theorem rrect_run (ops : List ROp) (s : RefHeap) (hs : HeapRect s.cells) (hw : s.WF) :
+    HeapRect (rrun s ops).cells ∧ (rrun s ops).WF := by
+  induction ops generalizing s with
+  | nil => exact ⟨hs, hw⟩
+  | cons op ops ih => exact ih _ (rrect_step s op hs) (rwf_step s op hw)
+
+theorem rrect_run_empty (ops : List ROp) : HeapRect (rrun .empty ops).cells ∧ (rrun .empty ops).WF :=
+  rrect_run ops .empty HeapRect.nil (by intro c hc; cases hc)
+
+/-- the simulation theorem carries over to the reference heap: its cells, read as records, evolve by the
+list-of-records machine `specStep` under the translated operation, with the same outcome — `rstep` IS
+`step` on the cells, so `abs_step` applies verbatim (the pointer table is bookkeeping on top) -/
+theorem rabs_step (s : RefHeap) (o : Op) (hs : HeapRect s.cells) :
+    (rstep s (.op o)).1.cells.map abs =
+      (specStep (s.cells.map abs) (o.mapHandles s.cellOf s.cells.length)).1 ∧
+    (step s.cells (o.mapHandles s.cellOf s.cells.length)).2 =
+      (specStep (s.cells.map abs) (o.mapHandles s.cellOf s.cells.length)).2 :=
+  abs_step s.cells _ hs
+
+/-- the history `d = dictable(a=[1,2]); e = d + None; e['z'] = 5`: `d` has the column `z` -/
+example : (rrun .empty [.op (.new 0 .none Option.none [("a", .many [.int 1, .int 2])]), .bindAlias 1 0,
+      .op (.setitem 1 "z" (.one (.int 5)))]).view =
+    [some [("a", [.int 1, .int 2]), ("z", [.int 5, .int 5])],
+     some [("a", [.int 1, .int 2]), ("z", [.int 5, .int 5])]] := by decide
+/-- with `e = d.copy()` instead, `d` is untouched; and `d = d[mask]` rebinds `d` to a fresh object while the
+alias `e` keeps the old one -/
+example : (rrun .empty [.op (.new 0 .none Option.none [("a", .many [.int 1, .int 2])]), .op (.copy 1 0),
+      .op (.setitem 1 "z" (.one (.int 5))), .bindAlias 2 0, .op (.mask 0 0 [true, false])]).view =
+    [some [("a", [.int 1])], some [("a", [.int 1, .int 2]), ("z", [.int 5, .int 5])],
+     some [("a", [.int 1, .int 2])]] := by decide
+/-- `d + None` and `concat([d])` report the handle (not the cell) as alias -/
+example : (rstep ⟨[1, 0], [[("a", [.int 1])], []]⟩ (.op (.addnone 0))).2 = .alias 0 ∧
+    (rstep ⟨[1, 0], [[("a", [.int 1])], []]⟩ (.op (.concat 5 [1]))).2 = .alias 1 := ⟨rfl, rfl⟩
+/-- the hypotheses of `ralias_shared` / `rframe_step` on a two-cell heap with an alias -/
+def rheap0 : RefHeap := ⟨[0, 1, 0], [tbl, [("q", [.int 1])]]⟩
+example : rheap0.get 0 = some tbl ∧ (2 : Nat) ≤ rheap0.ptr.length ∧ rheap0.WF ∧ HeapRect rheap0.cells := by
+  refine ⟨rfl, by decide, by decide, ?_⟩
+  intro t ht
+  simp [rheap0] at ht
+  rcases ht with rfl | rfl
+  · exact ⟨3, by decide⟩
+  · exact ⟨1, by decide⟩
+example : rheap0.get 1 = some [("q", [.int 1])] ∧ (ROp.op (.setitem 2 "c" (.one .none))).rebinds ≠ some 1 ∧
+    (ROp.op (.setitem 2 "c" (.one .none))).writesCell rheap0 ≠ rheap0.ptr[1]? := by decide
+
+/-- **the reference heap is a conservative extension of the value heap**: while no two handles share a
+cell (`ptr.Nodup`) an operation of the value machine, run through `rstep`, gives — seen through the handles
+(`RefHeap.vheap`) — exactly the heap and the outcome of `step`; and it creates no alias.  So everything
+proved about `step` / `run` (`abs_run`, ...) holds of `rstep` as long as `bindAlias` is not used; aliases
+arise only from `bindAlias`. -/
+theorem rstep_noalias (s : RefHeap) (hw : s.WF) (hinj : s.ptr.Nodup) (o : Op) :
+    (rstep s (.op o)).1.vheap = (step s.vheap o).1 ∧ (rstep s (.op o)).2 = (step s.vheap o).2 ∧
+    (rstep s (.op o)).1.ptr.Nodup :=
+  ⟨(rstep_op_sim s hw hinj o).1, (rstep_op_sim s hw hinj o).2, rstep_op_nodup s hw hinj o⟩
+
+/-- any history without `bindAlias`, from any alias-free reference heap (e.g. the empty one): the handles
+read what `run` computes -/
+theorem rrun_noalias (ops : List Op) (s : RefHeap) (hw : s.WF) (hinj : s.ptr.Nodup) :
+    (rrun s (ops.map .op)).vheap = run s.vheap ops := by
+  induction ops generalizing s with
+  | nil => rfl
+  | cons o ops ih =>
+    simp only [List.map_cons, rrun, run]
+    rw [ih _ (rwf_step s (.op o) hw) (rstep_noalias s hw hinj o).2.2, (rstep_noalias s hw hinj o).1]
+
+theorem rrun_noalias_empty (ops : List Op) : (rrun .empty (ops.map .op)).vheap = run [] ops :=
+  rrun_noalias ops .empty (by intro c hc; cases hc) (by simp [RefHeap.empty])
+
+example : rheap0.WF ∧ ¬ rheap0.ptr.Nodup ∧ (RefHeap.mk [1, 0] rheap0.cells).ptr.Nodup := by decide
 
 end Pyg.Props.C01
